@@ -12,7 +12,14 @@ What is enumerated (real TCPServer / ProtocolWrapper / H11Protocol / H2Protocol 
   handshake response, by a text frame; WebSocket upgrade immediately followed by one / two frames by a client
   that does not wait for the 101 (request and frames in the same read, the cut between them, inside a frame;
   the application answers the handshake only after the last read); POST with Upgrade: websocket (must stay
-  HTTP); unknown Upgrade token; plain GET+POST and chunked POST+GET pipelines; HTTP/1.0;
+  HTTP); unknown Upgrade token; plain GET+POST and chunked POST+GET pipelines; HTTP/1.0; the asterisk-form target
+  (OPTIONS *) as an h2c upgrade (the preflight hypercorn's own comment recommends: served as HTTP/2 stream 1, method
+  OPTIONS, path "*"), on a prior-knowledge HTTP/2 connection and as a plain HTTP/1.1 request;
+* a *configuration axis*: 14 of the openings again under h11_pass_raw_headers = True (field names written as the RFCs
+  print them, all lower case, all upper case), under server_names = [the host the requests name] and under both - the
+  expectation is the one of the default configuration (what the client opens with selects the protocol, whatever the
+  configuration and however the field names are spelt); the lower / upper case spellings of the WebSocket and h2c
+  openings under the default configuration as controls;
 * segmentation as *data choice points* (always fully enumerated): "2way" every split point of the whole
   byte string (so the further traffic is in the same read as the opening, starts a later read, or the
   cut falls inside the opening, between the head of an upgrade request and its body, inside the body),
@@ -47,7 +54,9 @@ from mc.x_c01c02c13_lib import (choose_cuts, h2_script_bytes, h2c_settings_heade
 ID = "C13"
 LEVEL = "model_checking"
 TECHNIQUE = ("bounded exhaustive enumeration of connection openings (incl. h2c upgrade requests carrying a Content-Length "
-             "or chunked body, h2c / WebSocket upgrade requests with the next protocol's first bytes in the same read) "
+             "or chunked body, h2c / WebSocket upgrade requests with the next protocol's first bytes in the same read, "
+             "OPTIONS * as h2c upgrade / prior knowledge / HTTP/1.1) x a configuration axis (raw header names with the field "
+             "names in RFC / lower / upper case, server_names naming the requests' host, both) "
              "x every segmentation of the client's byte string "
              "(data choice points, fully enumerated) on the real TCPServer/ProtocolWrapper/H11/H2 code; reference "
              "selection rule + independent client parsers + metamorphic comparison with the unsplit delivery")
@@ -66,12 +75,18 @@ ASSUMPTIONS = [
     "response except that it is the same for every split, and that a handshake answered 101 implies the frames are delivered",
     "an h2c client may send its preface right behind the upgrade request (the property's 'same or later reads')",
     "the not-base64 HTTP2-Settings opening is judged by split-independence only",
+    "configuration axis: h11_pass_raw_headers and a server_names list that contains the host the requests name change "
+    "nothing of what is expected (selection, bodies, responses); field names are case-insensitive (RFC 7230 3.2)",
+    "OPTIONS * : the ASGI path of the asterisk-form target is expected to be '*' (the target, which has no escapes to decode)",
 ]
-BOUNDS_DOC = {"quick": "every 2-way split and one-byte reads of every opening (22, 5 of them h2c upgrades with a body, 2 "
-                       "WebSocket upgrades with frames before the 101); "
+BOUNDS_DOC = {"quick": "every 2-way split and one-byte reads of every opening (25, 5 of them h2c upgrades with a body, 2 "
+                       "WebSocket upgrades with frames before the 101, 3 with OPTIONS *); configuration axis: 14 openings x "
+                       "{raw, sn, raw+sn} x {RFC, lower, upper case names under raw} = 54 more openings + 4 spelling controls, "
+                       "every 2-way split (one-byte reads for the RFC spelling, gated switch for 6 of them); "
                        "every 3-way split of the 3 shortest; "
                        "gated applications with cuts at the switch point +-1: M<=1,S<=2 (not the frames-before-the-101 openings)",
-              "thorough": "every 3-way split of every opening; gated: M<=2,S<=3"}
+              "thorough": "every 3-way split of every opening of the default configuration; configuration axis: every 2-way "
+                          "split, one-byte reads and the gated switch for every variant; gated: M<=2,S<=3"}
 BUDGET = {"quick": 300, "thorough": 1500}
 
 OK = [(b"content-length", b"2")]
@@ -87,7 +102,7 @@ def apps(gated: bool, hold: bool = False) -> Dict[str, list]:
     """hold: the WebSocket application answers the handshake only when gate "h" is released, which the environment does
     after the client's last read - every split of the client's bytes then meets the same application progress."""
     return {
-        "http:/r1": _resp(b"r1", gated), "http:/r2": _resp(b"r2", gated),
+        "http:/r1": _resp(b"r1", gated), "http:/r2": _resp(b"r2", gated), "http:*": _resp(b"r1", gated),
         "websocket": [("recv",)] + ([("gate", "h")] if hold else []) + [("send", {"type": "websocket.accept"})] + (
             [("gate", "g")] if gated else []) + [
             ("recv",), ("send", {"type": "websocket.send", "text": "pong"}), ("recv_until_disconnect",)],
@@ -98,15 +113,29 @@ H2_TWO = [("headers", 1, h2_request_headers(b"GET", b"/r1"), True),
 H2_SECOND = H2_TWO[1:]
 
 
+def _spell(raw: bytes, spelling: str) -> bytes:
+    """The same HTTP/1 request head with every field NAME written in lower / upper case (field names are
+    case-insensitive, RFC 7230 3.2); the request line, the values and whatever follows the head are untouched."""
+    if spelling == "rfc":
+        return raw
+    end = raw.index(b"\r\n\r\n")
+    lines = raw[:end].split(b"\r\n")
+    out = [lines[0]]
+    for line in lines[1:]:
+        n, _, v = line.partition(b":")
+        out.append((n.lower() if spelling == "lower" else n.upper()) + b":" + v)
+    return b"\r\n".join(out) + raw[end:]
+
+
 def _upgrade(settings_value: Optional[bytes], method: bytes = b"GET", body: Optional[bytes] = None,
-             chunked: Optional[List[bytes]] = None, framing_first: bool = False) -> bytes:
+             chunked: Optional[List[bytes]] = None, framing_first: bool = False, target: bytes = b"/r1") -> bytes:
     """An h2c upgrade request; a body is framed with Content-Length (`body`) or Transfer-Encoding: chunked (`chunked`),
     the framing header written behind the upgrade headers or (framing_first) in front of them."""
     hs = [(b"Connection", b"Upgrade, HTTP2-Settings"), (b"Upgrade", b"h2c")]
     if settings_value is not None:
         hs.append((b"HTTP2-Settings", settings_value))
     if not framing_first:
-        return h1_request(method, b"/r1", hs, body=body, chunked=chunked)
+        return h1_request(method, target, hs, body=body, chunked=chunked)
     framing = (b"Content-Length", str(len(body)).encode()) if body is not None else (b"Transfer-Encoding", b"chunked")
     head = h1_request(method, b"/r1", [framing] + hs)
     if body is not None:
@@ -195,6 +224,47 @@ def _openings() -> Dict[str, dict]:
                                                   (b"Sec-WebSocket-Key", b"dGhlIHNhbXBsZSBub25jZQ=="),
                                                   (b"Sec-WebSocket-Version", b"13")], body=b"hello") + h1_request(b"GET", b"/r2")],
         "expect": [("http", "1.1", "/r1", b"hello"), ("http", "1.1", "/r2", b"")]}
+    # --- the asterisk-form target (RFC 9112 3.2.4, RFC 9113 8.3.1: "OPTIONS *"): the preflight hypercorn's own comment
+    # recommends for an h2c upgrade, and the same request on a prior-knowledge connection - served like any other request
+    h2_options = [("headers", 1, h2_request_headers(b"OPTIONS", b"*", scheme=b"http"), True)] + H2_SECOND
+    exp_opt = [("http", "2", "*", b""), ("http", "2", "/r2", b"hello")]
+    o["h2c-options"] = {"conn": {"carrier": "h2c", "h2_script": [("upgrade_preface",)] + H2_SECOND, "methods": [b"OPTIONS"]},
+                        "head": _upgrade(h2c_settings_header(None), b"OPTIONS", target=b"*"), "expect": exp_opt}
+    o["preface-options"] = {"conn": {"carrier": "h2pk", "h2_script": [("preface",)] + h2_options}, "expect": exp_opt}
+    o["plain-options"] = {"conn": {"carrier": "h1", "methods": [b"OPTIONS", b"POST"]},
+                          "stages": [h1_request(b"OPTIONS", b"*") + h1_request(b"POST", b"/r2", body=b"hello")],
+                          "expect": [("http", "1.1", "*", b""), ("http", "1.1", "/r2", b"hello")]}
+    # --- the configuration axis: a subset of the openings under non-default configuration.  What the client opens with
+    # selects the protocol whatever the configuration: raw = h11_pass_raw_headers (the application is handed the field
+    # names as the client spelt them - the selection must not depend on that spelling: names as the RFCs print them, all
+    # lower case, all upper case), sn = server_names naming the host the requests use (everything is served as before)
+    base = dict(o)
+    raw = {"h11_pass_raw_headers": True}
+    sn = {"server_names": ["hypercorn"]}
+    for name, cfgs in (("ws", ("raw", "sn", "raw+sn")), ("ws-tokens", ("raw",)), ("ws-early", ("raw",)), ("ws-post", ("raw",)),
+                       ("h2c-default", ("raw", "sn", "raw+sn")), ("h2c-win1", ("raw",)), ("h2c-body", ("raw", "raw+sn")),
+                       ("h2c-chunked-first", ("raw",)), ("h2c-options", ("raw",)), ("upgrade-unknown", ("raw",)),
+                       ("plain-get-post", ("raw", "sn", "raw+sn")), ("plain-10", ("raw+sn",)), ("preface", ("raw", "sn")),
+                       ("alpn-h2", ("sn",))):
+        for cfg in cfgs:
+            spellings = ("rfc", "lower", "upper") if "raw" in cfg and base[name]["conn"]["carrier"] not in ("h2", "h2pk") else ("rfc",)
+            for sp in spellings:
+                op = dict(base[name])
+                op["config"] = {**(raw if "raw" in cfg else {}), **(sn if "sn" in cfg else {})}
+                if "stages" in op:
+                    op["stages"] = [_spell(op["stages"][0], sp)] + list(op["stages"][1:])
+                elif "head" in op:
+                    op["head"] = _spell(op["head"], sp)
+                op["variant"] = True
+                o[f"{name}@{cfg}" + ("" if sp == "rfc" else f"/{sp}")] = op
+    # the spellings under the default configuration as well (cheap controls)
+    for name in ("ws", "h2c-default"):
+        for sp in ("lower", "upper"):
+            op = dict(base[name])
+            key = "stages" if "stages" in op else "head"
+            op[key] = [_spell(op[key][0], sp)] + list(op[key][1:]) if key == "stages" else _spell(op[key], sp)
+            op["variant"] = True
+            o[f"{name}/{sp}"] = op
     return o
 
 
@@ -214,18 +284,26 @@ LENGTHS = {n: sum(len(s) for s in stages_of(op)) for n, op in OPENINGS.items()}
 
 def scenarios(tier: str) -> List[Any]:
     out: List[Any] = []
-    by_len = sorted(OPENINGS, key=lambda n: LENGTHS[n])
+    plain = [n for n in OPENINGS if not OPENINGS[n].get("variant")]
+    by_len = sorted(plain, key=lambda n: LENGTHS[n])
     three = by_len[:3] if tier == "quick" else by_len
     for engine in ("asyncio", "trio"):
         for name in OPENINGS:
+            variant = OPENINGS[name].get("variant")
             out.append((engine, name, "2way", "eager"))
-            out.append((engine, name, "bytes", "eager"))
+            if not variant or tier != "quick" or name.endswith(("@raw", "@raw+sn", "@sn")):
+                out.append((engine, name, "bytes", "eager"))
             if name in three:
                 for mode in three_way_modes(LENGTHS[name]):
                     out.append((engine, name, mode, "eager"))
-            if not OPENINGS[name].get("hold"):  # (held openings: the release order is fixed, nothing to interleave)
+            if OPENINGS[name].get("hold"):  # (held openings: the release order is fixed, nothing to interleave)
+                continue
+            if not variant or tier != "quick" or name in GATED_VARIANTS:
                 out.append((engine, name, "switch", "gated"))
     return out
+
+
+GATED_VARIANTS = ("ws@raw", "ws@raw+sn/lower", "h2c-default@raw", "h2c-default@raw+sn/upper", "h2c-body@raw", "h2c-options@raw")
 
 
 def bounds(tier: str, params: Any) -> dict:
@@ -241,10 +319,10 @@ def switch_points(name: str) -> List[int]:
     if op["conn"]["carrier"] in ("h2", "h2pk"):
         return [24]  # the 24-byte connection preface
     head_end = data.index(b"\r\n\r\n") + 4
-    head = data[:head_end]
-    if b"Content-Length: 5" in head:
+    head = data[:head_end].lower()
+    if b"content-length: 5" in head:
         return [head_end + 5]
-    if b"Transfer-Encoding: chunked" in head:  # body in the same read as the head / in a later one; end of the body
+    if b"transfer-encoding: chunked" in head:  # body in the same read as the head / in a later one; end of the body
         return [head_end, data.index(b"0\r\n\r\n", head_end) + 5]
     return [head_end]
 
@@ -272,7 +350,8 @@ def scenario_for(params: Any, cuts: Any) -> tuple:
         # fires once the client source has nothing left that can be delivered (bound S = 0: the reads come first)
         sources.append(("hold", [("release", "h")]))
     sc = {"level": "conn", "conns": {0: dict(op["conn"])}, "client_factory": make_xclient,
-          "app_factory": paced_app_factory(apps(gated, bool(op.get("hold")))), "config": {"keep_alive_timeout": 5},
+          "app_factory": paced_app_factory(apps(gated, bool(op.get("hold")))),
+          "config": {"keep_alive_timeout": 5, **op.get("config", {})},
           "sources": sources, "midflight": gated, "sigs": gated}
     return engine, sc, {"n_client": len(events)}
 
